@@ -162,3 +162,27 @@ def run(F, R, tier):
         ln = [n for n in b["_nodes"] if n.get("k") == "MethodCall" and n["name"] == "len"]
         ok = len(ln) == 1 and peel_value(ln[0]["recv"]).get("field") == fld and peel_value(ln[0]["recv"]).get("adt") == "graph::ModuleTextSource"
         R.ob("C20-e", "%s reports the byte length of the stored text" % fn.split("::", 1)[1], ok, "size is `%s`" % (expr_text(ln[0]) if ln else "?"), b["file"])
+
+    # ---------------- later (round 6) ---------------------------------------
+    # C20-h: wherever a loader response is turned into a module, the response's
+    # own headers (charset!) and content are what is parsed
+    n_sites = 0
+    for b in F.bodies:
+        if not b["path"].startswith("graph::Builder::"):
+            continue
+        for n in b["_nodes"]:
+            if n.get("k") == "Struct" and (n.get("adt") or "").endswith("ParseModuleAndSourceInfoOptions"):
+                g = guards_at(F, n, stop_at_async=False)
+                resp = [x for x in g if x.kind == "pat" and x.pol and "LoadResponse::Module" in pat_text(x.pat)]
+                if not resp:
+                    continue
+                n_sites += 1
+                binds = {p_["lid"] for x in resp for p_ in pat_bindings(x.pat)}
+                f = {x["name"]: x["e"] for x in n["fields"]}
+                for fld in ("maybe_headers", "content"):
+                    ok = fld in f and any(peel_value(y).get("lid") in binds for y in through_locals(f[fld]))
+                    R.ob("C20-h", "%s of the parsed module is the loader response's own [%s]" % (fld, b["path"].split("::")[-1]), ok,
+                         "a LoadResponse::Module is parsed with `%s: %s` instead of the value the loader supplied: %s" % (fld, expr_text(f.get(fld, {}))[:40] if fld in f else "?",
+                             "the content-type charset of this response never reaches the decoder (text decoded as UTF-8 although the header says otherwise)" if fld == "maybe_headers" else "the stored text is not what the loader supplied"),
+                         where(n), key="C20|C20-h|%s|%s" % (fld, b["path"].split("::")[-1]))
+    R.floor("C20-h loader responses parsed in the builder", n_sites, 3)
